@@ -1,5 +1,5 @@
 """C16 — only allow-listed metrics are exported; an empty allow-list exports nothing."""
-import fnmatch, json, logging, os, tempfile
+import fnmatch, json, logging, os, tempfile, threading
 from ..core import Violation
 
 ID = 'C16'
@@ -147,6 +147,16 @@ def run_e2e(case, cap, OTelLineageExporter):
     omi._METER_PROVIDER = None; omi._METER_PROVIDER_SET_ONCE._done = False      # the SDK allows one global provider per process: every case is its own "process"
     e = case['e2e']
     made, seen = [], []
+    # the lineage emitter is the REAL OpenFilterLineage (built the way Filter.set_open_lineage builds it: no explicit facets) around a capturing
+    # backend client: what finally counts is the RUNNING event the backend receives, not only the argument of update_heartbeat_lineage
+    from openfilter.observability.lineage import OpenFilterLineage
+    os.environ.pop('OPENLINEAGE_DISABLED', None)
+    backend = []
+    em = OpenFilterLineage(client=Obj(emit=backend.append), interval=3600, filter_name='verif')
+    real_update, cap_real = em.update_heartbeat_lineage, cap
+    def update(*a, **k): cap_real.update_heartbeat_lineage(*a, **k); return real_update(*a, **k)
+    em.update_heartbeat_lineage = update
+    cap = em
 
     class Rec(OTelLineageExporter):
         def __init__(self, *a, **k): super().__init__(*a, **k); made.append(self)
@@ -161,8 +171,13 @@ def run_e2e(case, cap, OTelLineageExporter):
         for row in e['rows']: reg.record({int(k): v for k, v in row.items()})
         for upd in e['sys']: cl.update_metrics(upd, e['filter'])
         cl.provider.force_flush()
-        facets = [c for c in cap.calls if c is not None]
+        facets = [c for c in cap_real.calls if c is not None]
         if len(facets) > 1: return 'multiple-calls', flatten_md(seen[0])
+        # one heartbeat of the real emitter (the loop body of _heartbeat_loop, once)
+        class OneShot(threading.Event):
+            def wait(s, timeout=None): s.set(); return True
+        em._stop_event = OneShot(); em._heartbeat_loop()
+        case['_event_keys'] = [sorted(k for k in (ev.run.facets.get('openfilter') or {})) for ev in backend if str(ev.eventType).endswith('RUNNING')]
         return (canon_facet(facets[0]) if facets else None), (flatten_md(seen[0]) if seen else [])
     finally:
         try: cl.provider.shutdown()
@@ -216,6 +231,19 @@ def oracle(case, impl):
         if isinstance(v, dict) and 'buckets' in v:
             if len(v['counts']) != len(v['buckets']) + 1: out.append(('hist-shape', f'{k}: {len(v["counts"])} counts for {len(v["buckets"])} bounds'))
             if not v['_types_ok']: out.append(('hist-types', f'{k}: non-numeric histogram fields'))
+    # what the lineage BACKEND is sent with the next heartbeat (real OpenFilterLineage emitter): only fields that stem from this case's exported facet
+    def norm(k):
+        k = k.lstrip('_')
+        if k and k[0].isupper(): k = k[0].lower() + k[1:]
+        return k.replace('-', '_').replace(' ', '_')
+    if isinstance(facet, (list, type(None))):
+        ok_keys = {'_producer', 'schemaURL', 'type', 'model_name'}
+        for k, v in (facet or []):
+            if isinstance(v, dict) and 'buckets' in v: ok_keys |= {norm(k) + '__' + x for x in ('buckets', 'counts', 'count', 'sum')}
+            else: ok_keys.add(norm(k))
+        for keys in case.get('_event_keys') or []:
+            extra = [k for k in keys if k not in ok_keys]
+            if extra: out.append(('backend-event-leak', f'the RUNNING event handed to the lineage backend carries {extra}, not part of this exporter\'s facet {[k for k, _ in (facet or [])]} (allow-list {allow!r})'))
     return out
 
 
